@@ -102,6 +102,9 @@ class Gen:
         if k == 'case':
             return f'CASE WHEN {self.bool_expr(scope, depth - 1)} THEN {self.num_expr(scope, 0)} ELSE {self.num_expr(scope, 0)} END'
         if k == 'cast':
+            if r.random() < 0.3:
+                # a cast of a cast: the inner one may lose information (REAL -> INTEGER -> ...), both stay
+                return f'CAST(CAST({self.any_col(alias, table)} AS {r.choice(["INTEGER", "INTEGER", "REAL"])}) AS {r.choice(["REAL", "INTEGER"])})'
             return f'CAST({self.any_col(alias, table)} AS {r.choice(["INTEGER", "REAL"])})'
         return f'length({self.txt_col(alias, table)})' if any(ty == 'TEXT' for _, ty in LAYOUT[table]) else f'{alias}.id'
 
@@ -121,6 +124,8 @@ class Gen:
             return "'" + r.choice(['x', 'abc', "it''s", '', 'b\\s', 'p%c', 'a:b']) + "'"
         if k == 'concat':
             return f"{c} || '-' || {c}"
+        if r.random() < 0.3:
+            return f'CAST(CAST({self.any_col(alias, table)} AS INTEGER) AS TEXT)'
         return f'CAST({self.num_col(alias, table)} AS TEXT)'
 
     def bool_expr(self, scope, depth=2, subq=False):
@@ -151,7 +156,7 @@ class Gen:
         if k == 'or':
             return f'({self.bool_expr(scope, depth - 1, subq)} OR {self.bool_expr(scope, depth - 1)})'
         if k == 'not':
-            inner = r.choice(['isnull', 'isnotnull', 'cmp', 'in', 'like', 'between', 'any'])
+            inner = r.choice(['isnull', 'isnotnull', 'cmp', 'in', 'like', 'between', 'any', 'in-null'])
             self.features.add('bool:not-' + inner)
             if inner == 'isnull':
                 return f'NOT ({self.any_col(alias, table)} IS NULL)'
@@ -161,6 +166,10 @@ class Gen:
                 return f'NOT {self.num_col(alias, table)} {r.choice(["=", "<", ">=", "!="])} {r.choice([0, 1, 2])}'
             if inner == 'in':
                 return f'NOT ({self.num_col(alias, table)} IN (1, 2))'
+            if inner == 'in-null':
+                # a NULL in the list makes the predicate UNKNOWN (not false) for every value that is not listed
+                return r.choice([f'NOT ({self.num_col(alias, table)} IN (1, NULL))', f'({self.num_col(alias, table)} IN (1, NULL)) IS NULL',
+                                 f'({self.num_col(alias, table)} IN (2, NULL, 3)) IS NOT NULL', f'coalesce({self.num_col(alias, table)} IN (1, NULL), 7) = 7'])
             if inner == 'like':
                 return f"NOT ({self.txt_col(alias, table)} LIKE 'a%')" if any(ty == 'TEXT' for _, ty in LAYOUT[table]) else f'NOT {alias}.id = 1'
             if inner == 'between':
@@ -226,7 +235,9 @@ class Gen:
         if r.random() < 0.12:
             # derived table
             self.features.add('derived-table')
-            frm = f'(SELECT s.id AS id, s.a AS a FROM {self.qual("t1")} AS s WHERE s.id <= 4) AS p'
+            # (with or without clauses of its own that an outer filter must not be merged past: a row limit after a total order)
+            inner_tail = r.choice(['WHERE s.id <= 4', 'WHERE s.id <= 4', 'ORDER BY s.id LIMIT 2', 'ORDER BY s.id DESC LIMIT 3 OFFSET 1', 'WHERE s.a IS NOT NULL ORDER BY s.id LIMIT 2'])
+            frm = f'(SELECT s.id AS id, s.a AS a FROM {self.qual("t1")} AS s {inner_tail}) AS p'
             scope = [('p', '_d')]
             njoin = 0
         grouped = r.random() < 0.2
